@@ -450,19 +450,12 @@ func main() {
 		seqMu.Unlock()
 		return fmt.Sprintf("%s/w%d/%d", root, n%64, n) // sharded parents: no directory-lock contention
 	}
-	distinct := func(inv []poolItem, f format) {
-		var ss []string
-		nontrivial := false
-		for _, p := range inv {
-			if p.U != nil {
-				nontrivial = true
-				ss = append(ss, p.U.String())
-			} else {
-				ss = append(ss, "-")
-			}
-		}
-		if nontrivial {
-			r.Distinct(f.Name + "|" + strings.Join(ss, " "))
+	// distinct non-trivial case = (format, canonical PURL multiset actually present in the written
+	// document), non-empty: inventories that differ only in order or in PURL-less / skipped
+	// packages are one case.
+	distinct := func(o *outcome, f format) {
+		if len(o.Expected) > 0 {
+			r.Distinct(f.Name + "|" + strings.Join(o.Expected, " "))
 		}
 	}
 
@@ -482,7 +475,7 @@ func main() {
 		inv := get(j)
 		o := roundTrip(inv, formats[j.f], nextDir())
 		r.Evals.Add(1)
-		distinct(inv, formats[j.f])
+		distinct(&o, formats[j.f])
 		res1[i] = &o
 	})
 	// root-cause keys of the single-package failures: a failure shared by every format of a
@@ -628,7 +621,7 @@ func main() {
 		inv := get(j)
 		o := roundTrip(inv, formats[j.f], nextDir())
 		r.Evals.Add(1)
-		distinct(inv, formats[j.f])
+		distinct(&o, formats[j.f])
 		if !o.ok() {
 			fmu.Lock()
 			fails = append(fails, fail{i, o})
